@@ -57,7 +57,7 @@ func (prop) Run(t *testing.T, s *sim.Sim, res *runner.Result) {
 			return xrworld.Opts{Claims: true, SSAClaims: tp.Next(2) == 1}
 		},
 		NoXRs:      true,
-		Params:     xrworld.DrawParams{Readiness: true, Conditions: true, Strict: true, Fatal: true},
+		Params:     xrworld.DrawParams{Readiness: true, Conditions: true, Strict: true, Fatal: true, Anonymous: true},
 		Faults:     []sim.Outcome{sim.ErrBefore, sim.ErrAfter, sim.Conflict, sim.CrashBefore, sim.CrashAfter},
 		MaxChaos:   220,
 		HealRounds: 4,
@@ -105,6 +105,16 @@ func (prop) Run(t *testing.T, s *sim.Sim, res *runner.Result) {
 			}
 		},
 	})
+}
+
+// templateID: a template's name, or for an anonymous template its content (the
+// workload's bases carry a distinct spec.tag).
+func templateID(tmap map[string]any) string {
+	if n, _ := tmap["name"].(string); n != "" {
+		return n
+	}
+	tag, _, _ := unstructured.NestedString(tmap, "base", "spec", "tag")
+	return "tag:" + tag
 }
 
 // rendersFor: a template renders unless a required from-composite patch lacks its source.
@@ -274,6 +284,14 @@ func (st *state) judgeXR(xrName string, t *sim.Task, startSeq int) {
 			rn = (&unstructured.Unstructured{Object: e.Before}).GetAnnotations()["crossplane.io/composition-resource-name"]
 		}
 		if rn == "" {
+			// composed from an anonymous template: recognised by its content
+			for _, m := range []map[string]any{e.After, e.Before} {
+				if tag, _, _ := unstructured.NestedString(m, "spec", "tag"); tag != "" && rn == "" {
+					rn = "tag:" + tag
+				}
+			}
+		}
+		if rn == "" {
 			continue
 		}
 		touched[rn] = true
@@ -367,7 +385,7 @@ func (st *state) judgeXR(xrName string, t *sim.Task, startSeq int) {
 	if ready {
 		for _, tm := range tmpls {
 			tmap, _ := tm.(map[string]any)
-			name, _ := tmap["name"].(string)
+			name := templateID(tmap)
 			if rendersFor(tmap, xr) && !touched[name] {
 				w.S.Probe("ready-carried-over-by-cut-short-composition")
 				ready = false
@@ -376,7 +394,13 @@ func (st *state) judgeXR(xrName string, t *sim.Task, startSeq int) {
 	}
 	for _, tm := range tmpls {
 		tmap, _ := tm.(map[string]any)
-		name, _ := tmap["name"].(string)
+		name := templateID(tmap)
+		if strings.HasPrefix(name, "tag:") {
+			w.S.Probe("anonymous-template-judged")
+			if synced {
+				w.S.Probe("anonymous-template-judged/synced")
+			}
+		}
 		// does the template render? a required from-composite patch needs its source
 		renders := rendersFor(tmap, xr)
 		if !renders {
@@ -401,7 +425,8 @@ func (st *state) judgeXR(xrName string, t *sim.Task, startSeq int) {
 			var obj map[string]any
 			for _, e := range mine {
 				if !e.Read && e.Err == nil && e.After != nil && composedKind(e.Key) {
-					if (&unstructured.Unstructured{Object: e.After}).GetAnnotations()["crossplane.io/composition-resource-name"] == name {
+					tag, _, _ := unstructured.NestedString(e.After, "spec", "tag")
+					if rn := (&unstructured.Unstructured{Object: e.After}).GetAnnotations()["crossplane.io/composition-resource-name"]; rn == name || (rn == "" && "tag:"+tag == name) {
 						obj = e.After
 					}
 				}
